@@ -32,8 +32,8 @@ _AN = [None]
 
 def analyzer():
     from . import effects
-    from .contract import REPO_SRC
-    if _AN[0] is None: _AN[0] = effects.Analyzer(REPO_SRC)
+    from .contract import repo_src
+    if _AN[0] is None: _AN[0] = effects.Analyzer(repo_src())
     return _AN[0]
 
 
